@@ -63,7 +63,7 @@ KExport == PrintT(ToJson([cf |-> kc.id, tab |-> [x \\in KReg(kc) |-> [k \\in 1..
     ck.count("observed_kernel", "attempts_tabulated", sum(len(regions[c["mode"]]) for c in cfgs) * (2 * kmax + 1) * 2 ** m)
     ck.count("observed_kernel", "tables_differing_from_spec_operator", differ)
 
-    def kernel_id(tabs, label):
+    def kernel_id(tabs, label, invs=("SupportSymmetric", "DetailedBalance", "Irreducible", "JumpBalancePiA")):
         NP, ob, en, wt = [], [], [], []
         for c in cfgs:
             reg = regions[c["mode"]]
@@ -82,8 +82,8 @@ KExport == PrintT(ToJson([cf |-> kc.id, tab |-> [x \\in KReg(kc) |-> [k \\in 1..
         mod2 = ("---- MODULE MC_KernelId ----\nEXTENDS KernelId\nMCNP == %s\nMCObs == %s\nMCEn == %s\nMCWt == %s\n====\n"
                 % (tla_val(NP), tla_val(ob), tla_val(en), tla_val(wt)))
         cfg2 = ("INIT Init\nNEXT Next\nCONSTANTS NC = %d NK = %d NU = %d\n NP <- MCNP\n Obs <- MCObs\n En <- MCEn\n Wt <- MCWt\n"
-                "INVARIANT SupportSymmetric\nINVARIANT DetailedBalance\nINVARIANT Irreducible\nCHECK_DEADLOCK FALSE\n"
-                % (len(cfgs), 2 * kmax + 1, 2 ** m))
+                "%sCHECK_DEADLOCK FALSE\n"
+                % (len(cfgs), 2 * kmax + 1, 2 ** m, "".join("INVARIANT %s\n" % i for i in invs)))
         rr = run_tlc("MC_KernelId", cfg_text=cfg2, extra_files={"MC_KernelId.tla": mod2}, workers=16, timeout=900,
                      extra=["-continue"])
         if rr.error:
@@ -94,6 +94,9 @@ KExport == PrintT(ToJson([cf |-> kc.id, tab |-> [x \\in KReg(kc) |-> [k \\in 1..
     rs = kernel_id(spec_tab, "kernel_identities_on_spec")
     if rs.violated:
         ck.violation("spec: attempt-kernel identities", {"violated": rs.violated}, site="spec")
+    # spec-level demonstration of F1: the stored (jump) chain is not reversible w.r.t. pi
+    rj = kernel_id(spec_tab, "jump_chain_not_pi_reversible", invs=("JumpBalancePi",))
+    ck.parts["jump_chain_not_pi_reversible"]["tlc_refutes_JumpBalancePi"] = "JumpBalancePi" in rj.violated
     ro = kernel_id(obs_tab, "kernel_identities_on_implementation")
     if ro.violated:
         # which configs: TLC prints the state (c = ...) of each violation with -continue
@@ -115,7 +118,7 @@ def replay_part(ck, tier, part="single_step"):
         r = S.explore(cfgs, kset, m, maxatt=3, maxsteps=1, timeout=1500)
     else:
         kset = [-5, -2, -1, 0, 1, 3]
-        n = 600 if tier == "quick" else 6000
+        n = 150 if tier == "quick" else 6000
         r = S.explore(cfgs, kset, m, maxatt=6, maxsteps=5, simulate=f"num={n}", depth=40, seed_=seed() + 7, timeout=1500)
     if r.violated:
         ck.violation("spec: Samplers invariants", {"violated": r.violated}, site="spec")
